@@ -75,6 +75,8 @@ fn rg_path(dir: &Path, rg_idx: usize) -> PathBuf {
 pub fn ensure_sidecar(parquet_path: &Path) -> Option<PathBuf> {
     let dir = sidecar_dir(parquet_path);
     let src_meta = std::fs::metadata(parquet_path).ok()?;
+    #[cfg(qe_verif)]
+    crate::verif_hooks::sync_point("sidecar.check_fresh");
     if is_fresh(&dir, &src_meta) {
         return Some(dir);
     }
@@ -85,7 +87,11 @@ pub fn ensure_sidecar(parquet_path: &Path) -> Option<PathBuf> {
     }
 
     static BUILD_LOCK: std::sync::Mutex<()> = std::sync::Mutex::new(());
+    #[cfg(qe_verif)]
+    crate::verif_hooks::sync_point("sidecar.lock");
     let _guard = BUILD_LOCK.lock().ok()?;
+    #[cfg(qe_verif)]
+    crate::verif_hooks::sync_point("sidecar.recheck_fresh");
     if is_fresh(&dir, &src_meta) {
         return Some(dir);
     }
@@ -129,6 +135,8 @@ fn is_fresh(dir: &Path, src_meta: &std::fs::Metadata) -> bool {
 
 fn build_sidecar(parquet_path: &Path, dir: &Path, src_meta: &std::fs::Metadata) -> Result<()> {
     let staging = dir.with_extension(format!("{}.building", std::process::id()));
+    #[cfg(qe_verif)]
+    crate::verif_hooks::sync_point("sidecar.mk_staging");
     let _ = std::fs::remove_dir_all(&staging);
     std::fs::create_dir_all(&staging)?;
     let build_into = staging.clone();
@@ -310,6 +318,8 @@ fn build_sidecar(parquet_path: &Path, dir: &Path, src_meta: &std::fs::Metadata) 
             .first()
             .map(|b| b.schema())
             .unwrap_or_else(|| std::sync::Arc::new(arrow::datatypes::Schema::empty()));
+        #[cfg(qe_verif)]
+        crate::verif_hooks::sync_point("sidecar.write_rg");
         let f = File::create(rg_path(dir, rg))?;
         // Parquet-derived schemas give EVERY dictionary field dict_id 0; the
         // IPC writer tracks dictionaries by id, so preserving schema ids
@@ -335,6 +345,8 @@ fn build_sidecar(parquet_path: &Path, dir: &Path, src_meta: &std::fs::Metadata) 
     })?;
     let stamp = stamp_value(src_meta)
         .ok_or_else(|| QueryError::Execution("source mtime unavailable for stamp".into()))?;
+    #[cfg(qe_verif)]
+    crate::verif_hooks::sync_point("sidecar.write_complete");
     std::fs::write(dir.join(".complete"), stamp)?;
 
     // Atomic publication: rename the staging dir into place. If the final
@@ -342,8 +354,14 @@ fn build_sidecar(parquet_path: &Path, dir: &Path, src_meta: &std::fs::Metadata) 
     // if the rename still loses, defer to whatever is there — the fresh
     // check on the next call decides.
     let final_dir = sidecar_dir(parquet_path);
+    #[cfg(qe_verif)]
+    crate::verif_hooks::sync_point("sidecar.remove_final");
     let _ = std::fs::remove_dir_all(&final_dir);
+    #[cfg(qe_verif)]
+    crate::verif_hooks::sync_point("sidecar.rename");
     if std::fs::rename(&staging, &final_dir).is_err() {
+        #[cfg(qe_verif)]
+        crate::verif_hooks::sync_point("sidecar.cleanup_staging");
         let _ = std::fs::remove_dir_all(&staging);
     }
     Ok(())
@@ -411,6 +429,8 @@ pub fn read_row_group(
     use arrow::ipc::reader::{read_footer_length, FileDecoder};
 
     let path = rg_path(dir, rg_idx);
+    #[cfg(qe_verif)]
+    crate::verif_hooks::sync_point("sidecar.open_rg");
     let file = File::open(&path)?;
     // SAFETY: the sidecar is created atomically by build_sidecar (readers
     // only see it after `.complete` is stamped) and never mutated in place —
